@@ -39,6 +39,8 @@ type c18Scenario struct {
 	Hosts []string `json:"hosts,omitempty"` // Host header of each key (parallel to Keys; c18.test when absent)
 	// Store: both caches persist into a store whose delete takes a few milliseconds (as a remote store's would)
 	Store bool `json:"store,omitempty"`
+	// SlowSet (with Store): it is the store's write that takes a while (40 ms) instead of its delete
+	SlowSet bool `json:"slowSet,omitempty"`
 	// Recreate: before the history starts the caches are served once, dropped by a reload that
 	// parks the servers on another cache, and brought back under the same names by a further reload
 	Recreate bool    `json:"recreate,omitempty"`
@@ -59,6 +61,7 @@ var c18URIs = []string{"/long?q=" + strings.Repeat("0123456789abcdef", 100), "/l
 
 func genC18e2e(t *rapid.T) c18Scenario {
 	sc := c18Scenario{Store: rapid.Bool().Draw(t, "store"), Recreate: rapid.IntRange(0, 2).Draw(t, "recreate") == 0}
+	sc.SlowSet = sc.Store && rapid.Bool().Draw(t, "slowSet")
 	n := rapid.IntRange(2, 4).Draw(t, "nKeys")
 	seen := map[string]bool{}
 	// the Host header is part of the key exactly as the client sent it
@@ -95,6 +98,11 @@ func genC18e2e(t *rapid.T) c18Scenario {
 		}
 		sc.Ops = append(sc.Ops, op)
 	}
+	if sc.SlowSet {
+		// a key is filled and purged straight away, then asked for again
+		k, srv := rapid.IntRange(0, n-1).Draw(t, "fillPurgeKey"), rapid.IntRange(0, 1).Draw(t, "fillPurgeSrv")
+		sc.Ops = append(sc.Ops, c18Op{K: "purge", Key: k}, c18Op{K: "get", Key: k, Srv: srv}, c18Op{K: "purge", Key: k, Cache: rapid.SampledFrom([]string{"", "c1", "c2"}).Draw(t, "fillPurgeCache")}, c18Op{K: "get", Key: k, Srv: srv})
+	}
 	return sc
 }
 
@@ -126,7 +134,11 @@ func execC18e2e(sc c18Scenario) *vstat.Outcome {
 	if sc.Store {
 		for i := range names {
 			storeURL[i] = "verifmem://" + names[i]
-			store.VerifRegisterStore(storeURL[i], &slowDeleteStore{rtStore: rtStore{data: map[string]rtRec{}}, delay: 15 * time.Millisecond})
+			st := &slowDeleteStore{rtStore: rtStore{data: map[string]rtRec{}}, delay: 15 * time.Millisecond}
+			if sc.SlowSet {
+				st.delay, st.setDelay = 0, 40*time.Millisecond
+			}
+			store.VerifRegisterStore(storeURL[i], st)
 			defer store.VerifUnregisterStore(storeURL[i])
 		}
 	}
@@ -281,6 +293,10 @@ func execC18e2e(sc c18Scenario) *vstat.Outcome {
 				}
 			}
 			applyPurge(op.Key, op.Cache, op.Wrong)
+			if sc.SlowSet {
+				// whatever write was still on its way to the store when the purge completed has landed by now
+				time.Sleep(60 * time.Millisecond)
+			}
 		case "purge-under-traffic":
 			// a stored entry is purged while clients keep asking for it; once the purge has
 			// completed nobody may be served the purged response any more
@@ -416,7 +432,15 @@ func TestC18Admin(t *testing.T) {
 // slowDeleteStore: an in-memory store whose Delete takes a while, like a remote store's
 type slowDeleteStore struct {
 	rtStore
-	delay time.Duration
+	delay    time.Duration
+	setDelay time.Duration
+}
+
+func (s *slowDeleteStore) Set(key []byte, data []byte, ttl time.Duration) error {
+	if s.setDelay > 0 {
+		time.Sleep(s.setDelay)
+	}
+	return s.rtStore.Set(key, data, ttl)
 }
 
 func (s *slowDeleteStore) Delete(key []byte) error {
